@@ -461,7 +461,8 @@ class Gen:
         'view print', 'play "abc"', 'print using "##.#"; 1.5',
         'print using "& #"; "x"; 2', 'kill "f.txt"', 'bsave "f", 0, 10',
         'bload "f", 0', 'width 40', 'screen 1', 'color 31, 7, 15',
-        'print using "###"; 1000',
+        'print using "###"; 1000', 'def seg = &hb800', 'bsave "g", 0, 10', 'poke 1048, 65',
+        'def seg = 0', 'x9# = peek(1047)',
     )
 
     def raw_stmt(self, sc):
